@@ -66,6 +66,7 @@ type ContentDef struct {
 	Pad      int    // trailing whitespace appended to the body
 	Len      int    // length for plain blobs
 	RefAlg   string // algorithm used for config/layer/child references (default sha256)
+	Evil     int    // > 0: the single child / layer digest is a path traversal out of a repository of that depth
 }
 
 // the standard universe; a profile selects a dependency closed subset
@@ -87,6 +88,10 @@ var stdDefs = []ContentDef{
 	{ID: "x2", Kind: "index", MT: "oci.index", Children: []string{"x1"}},
 	{ID: "x3", Kind: "index", MT: "docker.index", Children: []string{"m3"}},
 	{ID: "x4", Kind: "index", MT: "oci.index", Children: []string{"m1"}},
+	// manifests whose reference is a digest with dot segments pointing at the same content in a sentinel directory next
+	// to the root (sandbox/victim/blobs/sha256/<hex of b2>): the reference never exists in any repository
+	{ID: "xe", Kind: "index", MT: "oci.index", Children: []string{"m1"}, Evil: 1},
+	{ID: "me", Kind: "image", MT: "oci.image", Cfg: "b1", CfgMT: types.MediaTypeOCI1ImageConfig, Layers: []string{"b2"}, Evil: 1},
 	{ID: "a1", Kind: "image", MT: "oci.image", Cfg: "b1", CfgMT: types.MediaTypeOCI1Empty, Layers: []string{"b2"}, Subject: "m1", AT: "at1", Annot: true},
 	{ID: "a2", Kind: "image", MT: "oci.image", Cfg: "b1", CfgMT: atLong["at2"], Layers: []string{}, Subject: "m1"},
 	{ID: "a3", Kind: "image", MT: "oci.image", Cfg: "b1", CfgMT: types.MediaTypeOCI1Empty, Layers: []string{}, Subject: "a1", AT: "at3"},
@@ -285,6 +290,12 @@ func BuildCatalogue(o CatOpts) (*Catalogue, error) {
 	return c, nil
 }
 
+// evilDigest rewrites sha256:<hex> into sha256:../(depth+3 times)victim/blobs/sha256/<hex>: from
+// root/<repo of that depth>/blobs/sha256/ this names the blob of the sentinel layout next to the root.
+func evilDigest(d digest.Digest, depth int) digest.Digest {
+	return digest.Digest("sha256:" + strings.Repeat("../", depth+3) + "victim/blobs/sha256/" + d.Encoded())
+}
+
 func (c *Catalogue) desc(id, alg, mediaType string) types.Descriptor {
 	if alg == "" {
 		alg = "sha256"
@@ -311,7 +322,11 @@ func (c *Catalogue) realise(d *ContentDef, rng *rand.Rand) ([]byte, error) {
 			if c.C[l].Def.Kind != "blob" {
 				lmt = mtLong[c.C[l].Def.MT]
 			}
-			m.Layers = append(m.Layers, c.desc(l, d.RefAlg, lmt))
+			ld := c.desc(l, d.RefAlg, lmt)
+			if d.Evil > 0 {
+				ld.Digest = evilDigest(ld.Digest, d.Evil)
+			}
+			m.Layers = append(m.Layers, ld)
 		}
 		if d.AT != "" {
 			m.ArtifactType = atLong[d.AT]
@@ -343,7 +358,11 @@ func (c *Catalogue) realise(d *ContentDef, rng *rand.Rand) ([]byte, error) {
 		m := types.Index{SchemaVersion: 2, MediaType: mtLong[d.MT]}
 		m.Manifests = []types.Descriptor{}
 		for _, ch := range d.Children {
-			m.Manifests = append(m.Manifests, c.desc(ch, d.RefAlg, mtLong[c.C[ch].Def.MT]))
+			cd := c.desc(ch, d.RefAlg, mtLong[c.C[ch].Def.MT])
+			if d.Evil > 0 {
+				cd.Digest = evilDigest(cd.Digest, d.Evil)
+			}
+			m.Manifests = append(m.Manifests, cd)
 		}
 		if d.AT != "" {
 			m.ArtifactType = atLong[d.AT]
@@ -449,10 +468,18 @@ func (c *Catalogue) Header() map[string]any {
 		}
 		layers := []string{}
 		for _, l := range d.Layers {
+			if d.Evil > 0 {
+				layers = append(layers, "evil:"+l)
+				continue
+			}
 			layers = append(layers, sym(ra, l))
 		}
 		children := []string{}
 		for _, l := range d.Children {
+			if d.Evil > 0 {
+				children = append(children, "evil:"+l)
+				continue
+			}
 			children = append(children, sym(ra, l))
 		}
 		cfg := ""
